@@ -6,6 +6,7 @@ package main
 import (
 	"fmt"
 	"go/types"
+	"strings"
 )
 
 var intrinsics map[string]interceptFn
@@ -128,11 +129,12 @@ func init() {
 		"verifTime": func(fr *frame, args []value) value {
 			return timeVal{fr.m.input(args[0].(string), 64)}
 		},
-		"verifTimeOf":   func(fr *frame, args []value) value { return timeVal{args[0].(*Term)} },
-		"verifTimeNs":   func(fr *frame, args []value) value { return args[0].(timeVal).ns },
-		"verifRegister": noop,
-		"verifRecord":   noop,
-		"verifHexModel": func(fr *frame, args []value) value { fr.m.hexModel = true; return nil },
+		"verifTimeOf":         func(fr *frame, args []value) value { return timeVal{args[0].(*Term)} },
+		"verifTimeNs":         func(fr *frame, args []value) value { return args[0].(timeVal).ns },
+		"verifShowsDecimals4": inShowsDecimals4,
+		"verifRegister":       noop,
+		"verifRecord":         noop,
+		"verifHexModel":       func(fr *frame, args []value) value { fr.m.hexModel = true; return nil },
 		"verifMutexHeld": func(fr *frame, args []value) value {
 			p, _ := args[0].(*value)
 			locked, readers := fr.m.sched.heldBy(p)
@@ -189,3 +191,95 @@ func inBool(fr *frame, args []value) value {
 }
 
 var _ = types.Typ
+
+// verifShowsDecimals4(s, sep, vals): the text contains the values, each
+// rendered as value/10000 with four decimals, separated by sep.  On the
+// symbolic side the rendering is an opaque %.4f part; its argument must be
+// float64(t) * 0.0001 (or float64(t) / 10000) for an integer term t, and the
+// result is the bit-vector condition t == value (conversion exact below 2^53).
+func inShowsDecimals4(fr *frame, args []value) value {
+	m := fr.m
+	st := m.st()
+	sep, _ := args[1].(string)
+	vals, _ := args[2].([]value)
+	if s, ok := args[0].(string); ok {
+		// fully concrete: compare with the exact decimal text
+		var want []string
+		for _, v := range vals {
+			t := v.(*Term)
+			if !t.IsConst() {
+				return tFalse
+			}
+			want = append(want, decimal4(sext64(t.c, 64)))
+		}
+		return Bool(strings.Contains(s, strings.Join(want, sep)))
+	}
+	parts := partsOf(args[0])
+	res := tFalse
+	n := len(vals)
+	for i := 0; i+2*n-1 <= len(parts); i++ {
+		c := tTrue
+		for k := 0; k < n && !c.IsFalse(); k++ {
+			p := parts[i+2*k]
+			if !strings.HasPrefix(p.kind, "fmt:%.4f/") {
+				c = tFalse
+				break
+			}
+			if k > 0 {
+				sp := parts[i+2*k-1]
+				if sp.kind != "" || sp.lit != sep {
+					c = tFalse
+					break
+				}
+			}
+			it, ok := scaled4Operand(st, p.args[0])
+			if !ok {
+				c = tFalse
+				break
+			}
+			c = st.And(c, st.Eq(it, vals[k].(*Term)))
+		}
+		res = st.Or(res, c)
+	}
+	return res
+}
+
+// scaled4Operand recognises float64(t)*0.0001 and float64(t)/10000 and
+// returns t as a signed 64-bit term.
+func scaled4Operand(st *Store, a *Term) (*Term, bool) {
+	var conv *Term
+	switch a.op {
+	case OpFMul:
+		for i := 0; i < 2; i++ {
+			if k := a.a[i]; k.IsConst() && k.Float() == 0.0001 {
+				conv = a.a[1-i]
+			}
+		}
+	case OpFDiv:
+		if k := a.a[1]; k.IsConst() && k.Float() == 10000 {
+			conv = a.a[0]
+		}
+	}
+	if conv == nil {
+		return nil, false
+	}
+	switch conv.op {
+	case OpFFromS:
+		return st.SExt(conv.a[0], 64), true
+	case OpFFromU:
+		if conv.a[0].w < 64 {
+			return st.ZExt(conv.a[0], 64), true
+		}
+		return conv.a[0], true // values >= 2^63 would differ; fields are at most 38 bits wide
+	}
+	return nil, false
+}
+
+func decimal4(v int64) string {
+	sign := ""
+	if v < 0 {
+		sign = "-"
+		v = -v
+	}
+	return fmt.Sprintf("%s%d.%04d", sign, v/10000, v%10000)
+}
